@@ -53,6 +53,23 @@ func corpus(c *hx.Ctx) {
 	k4.AddFeature(mw.Feat{ID: 8, Lat: p7[0], Lng: p7[1]})
 	k4.AddFeature(mw.Feat{ID: 1011, Refs: []int{7, 8}})
 	k4.AddFeature(mw.Feat{ID: 2010, Refs: []int{1011}})
+	// fixed: an area over a path that is closed only by two coincident points; moving one of them in a
+	// merged change passed the canary (which saw the path through the world, with the old end point)
+	// and failed in the world ("change partially applied")
+	k5 := mw.NewCase(c)
+	k5.StandardRoot(hx.NewRand(2), false)
+	k5.World()
+	k5.Dump()
+	k5.AddFeature(mw.Feat{ID: 7, Lat: p7[0], Lng: p7[1]})
+	k5.AddFeature(mw.Feat{ID: 8, Lat: p7[0], Lng: p7[1]})
+	k5.AddFeature(mw.Feat{ID: 1011, Refs: []int{7, 1, 2, 8}})
+	k5.AddFeature(mw.Feat{ID: 2010, Refs: []int{1011}})
+	p8 := mw.Positions[8][0]
+	k5.Merged([]mw.Part{
+		{Kind: "at", IDs: []int{1}, Tags: []mw.Tag{s("name", "x")}},
+		{Kind: "af", Feats: []mw.Feat{{ID: 8, Lat: p8[0], Lng: p8[1]}}},
+	})
+	k5.AddFeature(mw.Feat{ID: 8, Lat: p8[0], Lng: p8[1]})
 	c.NonTrivial()
 }
 
